@@ -246,6 +246,19 @@ class Blackhole(Peer):
         pass
 
 
+class WarmPeer(Blackhole):
+    """selects the method, keeps what it is sent and never answers the request"""
+
+    def __init__(self, name):
+        Blackhole.__init__(self, method_reply=True)
+        self.name = name
+        self.got = b''
+
+    def data_received(self, data):
+        self.got += data
+        Blackhole.data_received(self, data)
+
+
 def _tls_name_ok(host):
     """a name the TLS layer accepts for SNI / certificate checks (it refuses others by itself, before any SOCKS byte)"""
     labels = host[:-1].split('.') if host.endswith('.') else host.split('.')
@@ -563,6 +576,9 @@ class SocksRun(object):
         sim.net.listen('tcp', 9150 if self.guessing else 9050, accept)
         ep = TCP4ClientEndpoint(sim.reactor, '127.0.0.1', 9050)
         self.factory = AppFactory(self)
+        if (self.prop == 'C06' and self.target_kind == 'host' and not self.unencodable and sim.params.get('cut') is None and
+                isinstance(self.host, str) and self.host.isascii() and ch.chance(1, 12, 'longlived')):
+            self.warm_up(ep)
         reuse = (self.req_type == 'CONNECT' and not self.unencodable and sim.params.get('cut') is None and
                  ch.chance(1, 8, 'reuseendpoint'))
         try:
@@ -666,6 +682,39 @@ class SocksRun(object):
         sim.total_s2c = len(self.peer.sent) if self.peer is not None else 0
         sim.sweepable = self.prop == 'C05' and self.fault_kind is None and not self.unencodable and self.peer is not None
         self.check_final()
+
+    def warm_up(self, ep):
+        """a long-lived application: the same endpoint module has already carried requests for well over a hundred other
+        names (the first of them the name that is asked for now); each of them is decoded too"""
+        import txtorcon.socks as tsocks
+        sim, ch = self.sim, self.ch
+        sim.probe('more-than-128-earlier-names')
+        n = 129 + ch.draw(12, 'nwarm')
+        names = [self.host] + ['w%d.%s' % (i, ch.pick(['example.org', 'example.net', 'onion'], 'warmtld')) for i in range(n)]
+        peers = []
+
+        def accept(dest):
+            p = WarmPeer(names[len(peers)])
+            peers.append(p)
+            return p
+        sim.net.listen('tcp', 9250, accept)
+        epw = TCP4ClientEndpoint(sim.reactor, '127.0.0.1', 9250)
+        for i, nm in enumerate(names):
+            port = 1 + (i * 331) % 65535
+            tsocks.TorSocksEndpoint(epw, nm, port).connect(AppFactory(self, decoy=True)).addErrback(lambda f: None)
+            sim.drain(max_steps=200)
+            p = peers[i] if i < len(peers) else None
+            if p is None or p.name != nm:
+                raise HarnessError('warm-up connection %d did not arrive' % i)
+            res = parse_request(p.got[3:])
+            if not isinstance(res[0], dict):
+                sim.fail('C06.request-malformed', 'earlier request %d for %r: %s undecodable (%r)' % (i, nm, p.got[3:].hex()[:80], res))
+            req = res[0]
+            if p.got[:3] != b'\x05\x01\x00' or req['atyp'] != 3 or req['addr'] != nm.encode('ascii') or req['port'] != port or \
+                    req['cmd'] != 1 or len(p.got) != 3 + res[1]:
+                sim.fail('C06.request-address-name', 'request %d of a long-lived application, for %r port %d, was written as %s' % (
+                    i, nm[:40], port, p.got.hex()[:100]))
+        sim.draining = False
 
     def actions(self):
         acts = []
